@@ -471,7 +471,9 @@ Definition reg_item (c : ctx) (it : item) : list utxo :=
 Definition registered (c : ctx) (its : list item) : list utxo := flat_map (reg_item c) its.
 
 Definition item_sound (it : item) : Prop :=
-  match it with Op _ => True | Build _ sels => Forall sel_sound sels end.
+  match it with Build _ sels => Forall sel_sound sels | _ => True end.
+(* a history during which the chain does not move *)
+Definition static (it : item) : Prop := match it with SetCtx _ => False | _ => True end.
 
 Lemma permitted_step c st o R : incl (permitted c st) R ->
   incl (permitted c (bstep st o)) (R ++ reg_item c (Op o)).
@@ -483,12 +485,13 @@ Proof.
     try (apply in_or_app; left; apply H; repeat (apply in_or_app; (left; assumption) || right); assumption).
 Qed.
 
-Lemma run_provenance c its : forall st R, incl (permitted c st) R -> Forall item_sound its ->
+Lemma run_provenance c its : forall st R, incl (permitted c st) R -> Forall item_sound its -> Forall static its ->
   forall sel, In (BOk sel) (snd (run c st its)) -> incl sel (R ++ registered c its).
 Proof.
-  induction its as [|it r IH]; intros st R HR Hs sel Hin; cbn [run] in Hin.
+  induction its as [|it r IH]; intros st R HR Hs Hst sel Hin; cbn [run] in Hin.
   - destruct Hin.
-  - inversion Hs as [|? ? Hit Hr]; subst. destruct it as [o|need sels].
+  - inversion Hs as [|? ? Hit Hr]; subst. inversion Hst as [|? ? Hst1 Hstr]; subst.
+    destruct it as [o|need sels|c']; [| |destruct Hst1].
     + unfold registered. cbn [flat_map]. rewrite app_assoc. apply (IH (bstep st o)); auto.
       now apply permitted_step.
     + cbn [item_sound] in Hit.
@@ -501,6 +504,97 @@ Proof.
         intros x Hx. apply HR. unfold permitted in *. cbn [explicit potential addrs] in Hx.
         apply in_app_or in Hx. destruct Hx as [Hx|Hx]; [|apply in_or_app; now right].
         eapply build_incl_permitted; eauto.
+Qed.
+
+(* ================= histories on a chain that moves ================= *)
+(* what the caller handed over, the addresses registered, what earlier builds selected, the context in force *)
+Definition caller_utxos (its : list item) : list utxo :=
+  flat_map (fun it => match it with
+                      | Op (AddInput u) | Op (AddScriptInput u) | Op (AddPotential u) => [u]
+                      | _ => [] end) its.
+Definition addr_ops (its : list item) : list N :=
+  flat_map (fun it => match it with Op (AddAddress a) => [a] | _ => [] end) its.
+Definition earlier_selected (c : ctx) (st : bstate) (its : list item) : list utxo :=
+  flat_map (fun b => match b with BOk sel => sel | BErr _ => [] end) (snd (run c st its)).
+Fixpoint last_ctx (c : ctx) (its : list item) : ctx :=
+  match its with [] => c | SetCtx c' :: r => last_ctx c' r | _ :: r => last_ctx c r end.
+
+Lemma run_build_snd c st need sels r :
+  snd (run c st (Build need sels :: r))
+  = build c sels need st :: snd (run c (state_after st (build c sels need st)) r).
+Proof. cbn [run]. destruct (run c (state_after st (build c sels need st)) r). reflexivity. Qed.
+
+Lemma reach_ctx its : forall c st, fst (reach c st its) = last_ctx c its.
+Proof. induction its as [|[o|need sels|c'] r IH]; intros c st; cbn [reach last_ctx]; auto. Qed.
+
+Lemma state_after_addrs st b : addrs (state_after st b) = addrs st.
+Proof. destruct b; reflexivity. Qed.
+
+Lemma reach_addrs its : forall c st, addrs (snd (reach c st its)) = addrs st ++ addr_ops its.
+Proof.
+  induction its as [|[o|need sels|c'] r IH]; intros c st; cbn [reach addr_ops flat_map].
+  - now rewrite app_nil_r.
+  - rewrite IH. destruct o; cbn [bstep addrs app]; try reflexivity. now rewrite <- app_assoc.
+  - rewrite IH, state_after_addrs. reflexivity.
+  - apply IH.
+Qed.
+
+Lemma run_app_build pre : forall c0 st need sels post,
+  snd (run c0 st (pre ++ Build need sels :: post))
+  = snd (run c0 st pre)
+    ++ build (fst (reach c0 st pre)) sels need (snd (reach c0 st pre))
+       :: snd (run (fst (reach c0 st pre)) (state_after (snd (reach c0 st pre))
+                     (build (fst (reach c0 st pre)) sels need (snd (reach c0 st pre)))) post).
+Proof.
+  induction pre as [|[o|n0 s0|c'] r IH]; intros c0 st need sels post.
+  - cbn [app reach fst snd]. rewrite run_build_snd. reflexivity.
+  - cbn [app run reach]. apply IH.
+  - rewrite <- app_comm_cons. rewrite !run_build_snd. cbn [reach]. rewrite IH. reflexivity.
+  - cbn [app run reach]. apply IH.
+Qed.
+
+(* the explicit and potential lists of the reached state hold only what the caller handed over and what
+   earlier builds of this builder selected *)
+Lemma reach_lists its : forall c st R, incl (explicit st ++ potential st) R ->
+  incl (explicit (snd (reach c st its)) ++ potential (snd (reach c st its)))
+       (R ++ caller_utxos its ++ earlier_selected c st its).
+Proof.
+  induction its as [|[o|need sels|c'] r IH]; intros c st R HR; cbn [reach].
+  - intros x Hx. apply in_or_app. left. now apply HR.
+  - intros x Hx. apply (IH c (bstep st o) (R ++ caller_utxos [Op o])) in Hx.
+    + unfold caller_utxos, earlier_selected in *. cbn [flat_map run] in *. rewrite app_nil_r in Hx.
+      rewrite !in_app_iff in *. tauto.
+    + intros y Hy. unfold caller_utxos. cbn [flat_map]. rewrite app_nil_r.
+      destruct o; cbn [bstep explicit potential] in Hy; rewrite !in_app_iff in *; cbn [In] in *;
+        try (left; apply HR; rewrite in_app_iff; tauto);
+        try (destruct Hy as [[Hy|[Hy|[]]]|Hy]; [left; apply HR; rewrite in_app_iff; tauto | right; now left | left; apply HR; rewrite in_app_iff; tauto]);
+        try (destruct Hy as [Hy|[Hy|[Hy|[]]]]; [left; apply HR; rewrite in_app_iff; tauto | left; apply HR; rewrite in_app_iff; tauto | right; now left]).
+  - intros x Hx. unfold earlier_selected. rewrite run_build_snd. cbn [flat_map].
+    destruct (build c sels need st) as [s0|e] eqn:B; cbn [state_after] in *.
+    + apply (IH c (mkB s0 (potential st) (excluded st) (addrs st)) (R ++ s0)) in Hx.
+      * unfold caller_utxos, earlier_selected in *. cbn [flat_map]. rewrite !in_app_iff in *. tauto.
+      * intros y Hy. cbn [explicit potential] in Hy. rewrite !in_app_iff in *.
+        destruct Hy as [Hy|Hy]; [now right|]. left. apply HR. rewrite in_app_iff. now right.
+    + apply (IH c st R HR) in Hx. unfold caller_utxos, earlier_selected in *. cbn [flat_map app].
+      rewrite !in_app_iff in *. tauto.
+  - intros x Hx. apply (IH c' st R HR) in Hx. unfold caller_utxos, earlier_selected in *. cbn [flat_map run app] in *.
+    exact Hx.
+Qed.
+
+(* freshness: in a build after any history, a UTxO that the caller did not hand over and that no earlier build of
+   this builder selected is reported by the context IN FORCE AT THAT BUILD at an address registered so far *)
+Lemma history_live c0 pre need sels sel : Forall sel_sound sels ->
+  build (last_ctx c0 pre) sels need (snd (reach c0 empty_state pre)) = BOk sel ->
+  incl sel (caller_utxos pre ++ earlier_selected c0 empty_state pre
+            ++ flat_map (ctx_utxos (last_ctx c0 pre)) (addr_ops pre)).
+Proof.
+  intros Hs Hb x Hx. assert (I : incl sel (permitted (last_ctx c0 pre) (snd (reach c0 empty_state pre)))) by (eapply build_incl_permitted; eauto).
+  apply I in Hx. unfold permitted in Hx.
+  rewrite reach_addrs in Hx. cbn [empty_state addrs app] in Hx.
+  rewrite app_assoc in Hx. apply in_app_or in Hx. destruct Hx as [Hx|Hx].
+  - apply (reach_lists pre c0 empty_state []) in Hx; [|intros y []]. cbn [app] in Hx.
+    rewrite !in_app_iff in *. tauto.
+  - rewrite !in_app_iff. right. now right.
 Qed.
 
 (* ================= body-level corollaries under reference coherence ================= *)
@@ -597,4 +691,17 @@ Module Examples.
   Proof. vm_compute. reflexivity. Qed.
   Example history_sound : Forall item_sound [Op (AddInput A); Op (AddAddress 7); Build true [take_all]].
   Proof. repeat constructor. apply take_all_sound. Qed.
+  (* the chain moves between two builds of one builder: B and C are spent elsewhere, E arrives.  The second build
+     keeps what the first one wrote back (B, A, C, D are now the builder's own inputs) and may add only what the
+     context reports NOW (E) *)
+  Definition E := mkU (hx "b1") 0 5.
+  Definition cx2 : ctx := [(7, [D; E])].
+  Definition pre_live := [Op (AddInput A); Op (AddAddress 7); Build true [take_all]; SetCtx cx2].
+  Example live_ctx : last_ctx cx pre_live = cx2.
+  Proof. reflexivity. Qed.
+  Example live_ex :
+    snd (run cx empty_state (pre_live ++ [Build true [take_all]])) = [BOk [B; A; C; D]; BOk [B; A; C; D; E]].
+  Proof. vm_compute. reflexivity. Qed.
+  Example live_premise : build (last_ctx cx pre_live) [take_all] true (snd (reach cx empty_state pre_live)) = BOk [B; A; C; D; E].
+  Proof. vm_compute. reflexivity. Qed.
 End Examples.
